@@ -1,6 +1,7 @@
 (* C04 - Approximate superadditive-monotone bounds are sound, ordered, self-consistent.
    Statements only; proofs in theories/SAMSound.v, SAMOrder.v, SAMKnowledge.v.  All theorems hold for EVERY repetition count r. *)
 From ICG Require Import Prelude Bits Table Bounds FoldLemmas BoundsSpec SASound SAEquiv SATight SAKnowledge SAMSpec SAMSound SAMOrder SAMKnowledge Checks ChecksSAM.
+From ICG Require Import RegistryTypes gen.Registry gen.RegistryLinkProps.
 
 (* soundness: for every superadditive, monotone non-increasing hidden game, every knowledge set containing the minimal
    information, any table holding that knowledge (arbitrary stale rows), every r *)
@@ -53,6 +54,12 @@ Theorem C04_sam_upper_caps :
     (forall T, bounded n T -> K T = true -> ssub s T = true -> U t' s <= v T - L t' (N.ldiff T s)).
 Proof. exact sam_upper_caps. Qed.
 Print Assumptions C04_sam_upper_caps.
+
+(* the registered repetition counts (sam_apx_1/10/100/1000 ...) are instances of the theorems above, which hold for every r *)
+Theorem C04_registry_bounds_modelled :
+  Forall (fun kv => exists c : computer, rl_computer (snd kv) = Some c) bounds_registry.
+Proof. exact registry_bounds_modelled. Qed.
+Print Assumptions C04_registry_bounds_modelled.
 
 (* Non-vacuity: a 3-player SAM game (negated monotone subadditive), K = minimal + {0,1}. *)
 Definition ex_v : N -> Q := game_of [0; -3; -2; -4; -2; -4; -3; -5].
